@@ -8,6 +8,9 @@
 //	authorizer ∈ nil, query.OpenAuthorizer, a fine-grained fake showing exactly one subset of the 5 series (all 32 subsets)
 //	shards     ∈ {A}, {B}, {A,B}, {A,B,unknown id}                       (Store.TagKeys / Store.TagValues)
 //	condition  = [_name filter] AND [_tagKey clause] AND [one tag comparison `k op lit` of the C15 grammar]
+//	             (k ∈ keys carried by some and lacked by other series of a measurement; op lit: = / != with a value and
+//	             with the empty literal, =~ / !~ with every regex of an alphabet holding regexes that match the empty string –
+//	             /^x*$/, /.*/, /^$/ – and regexes that do not – /^x+$/, /x|z/)
 //
 // is executed and compared with a reference computed from the model of live series (series that still hold a point in
 // the queried shards) and the authorizer's visible set.
@@ -909,27 +912,44 @@ func run(f *mini.Fixture, b mini.Bucket, md model, q Query, ids map[string][]uin
 // ---------------------------------------------------------------------------------------------------------
 // families
 
+// Regex alphabet of the tag comparisons: regexes that MATCH THE EMPTY STRING (a series lacking the key has value ""
+// and is selected by `=~`, rejected by `!~`) next to regexes that do not. On the single-letter values of the pool
+// /^x*$/ and /^x+$/ match exactly the value x, /x|z/ the values x and z, /.*/ every value, /^$/ none.
+var (
+	regexMatchingEmpty    = []string{"^x*$", ".*", "^$"}
+	regexNotMatchingEmpty = []string{"^x+$", "x|z"}
+)
+
+// leaves: nil (no tag comparison) + key × (operator, literal): the equality forms = / != with 'x' and with the empty
+// literal (the equality analogue of a regex matching the empty string), and EVERY (=~ | !~) × regex of the alphabet.
+// Keys a, b (both carried by some series of m0 and m1 and lacked by others): the whole alphabet (14 comparisons each;
+// thorough + = 'y', != 'z' and (=~ | !~) /y?/, a regex that matches the empty string AND a value). The key no series has:
+// = 'x', != 'x', =~ /.*/, !~ /.*/ (thorough + = / != with the empty literal, =~ / !~ /^x+$/).
 func leaves(thorough bool) []*Leaf {
 	out := []*Leaf{nil}
 	type ol struct {
 		op, lit string
 		re      bool
 	}
-	ops := []ol{{"=", "x", false}, {"!=", "x", false}, {"=", "", false}, {"!=", "", false}, {"=~", "x|z", true}, {"!~", "x", true}, {"=~", "^$", true}}
+	ops := []ol{{"=", "x", false}, {"!=", "x", false}, {"=", "", false}, {"!=", "", false}}
+	res := append(append([]string(nil), regexMatchingEmpty...), regexNotMatchingEmpty...)
 	if thorough {
-		ops = append(ops, ol{"=", "y", false}, ol{"!=", "z", false}, ol{"=~", ".*", true}, ol{"!~", "^$", true})
+		ops = append(ops, ol{"=", "y", false}, ol{"!=", "z", false})
+		res = append(res, "y?")
 	}
-	keys := []string{"a", "b"}
-	if thorough {
-		keys = append(keys, "missing")
+	for _, r := range res {
+		ops = append(ops, ol{"=~", r, true}, ol{"!~", r, true})
 	}
-	for _, k := range keys {
+	for _, k := range []string{"a", "b"} {
 		for _, o := range ops {
 			out = append(out, &Leaf{Key: k, Op: o.op, Lit: o.lit, Regex: o.re})
 		}
 	}
-	if !thorough {
-		out = append(out, &Leaf{Key: "missing", Op: "=", Lit: "x"}, &Leaf{Key: "missing", Op: "!=", Lit: "x"})
+	out = append(out, &Leaf{Key: "missing", Op: "=", Lit: "x"}, &Leaf{Key: "missing", Op: "!=", Lit: "x"},
+		&Leaf{Key: "missing", Op: "=~", Lit: ".*", Regex: true}, &Leaf{Key: "missing", Op: "!~", Lit: ".*", Regex: true})
+	if thorough {
+		out = append(out, &Leaf{Key: "missing", Op: "=", Lit: ""}, &Leaf{Key: "missing", Op: "!=", Lit: ""},
+			&Leaf{Key: "missing", Op: "=~", Lit: "^x+$", Regex: true}, &Leaf{Key: "missing", Op: "!~", Lit: "^x+$", Regex: true})
 	}
 	return out
 }
@@ -1159,6 +1179,9 @@ func sigOf(q Query, p problem) string {
 	} else if q.Leaf != nil {
 		where = "where=positive"
 	}
+	if q.Leaf != nil && q.Leaf.positive("") {
+		where += "-literal-matches-empty" // = '' / != '' / a regex matching "": series LACKING the key are concerned
+	}
 	return vlib.JoinSig(api, p.clause, "auth="+q.authKind(), where)
 }
 
@@ -1193,17 +1216,17 @@ func TestCheck(t *testing.T) {
 		ID: "C42", Level: "exploration",
 		Rule: "datasets × queries, complete product within the bounds. Series pool m0{a=x}, m0{a=y,b=z}, m1{a=x,b=z}, m1{b=w}, m2{a=y}; one point per series and shard group (two 1h groups A, B). " +
 			"Datasets: placements of the 5 series (absent / A / B / both; quick 3 placements, thorough 9) × one bucket delete through storage.Engine.DeleteBucketRangePredicate (quick: none, all-time a=x, range A no predicate, all-time m0 AND a=y; thorough + all-time _measurement=m0, range B b=z, all-time m1 AND b=w, range A a=x), layouts cache / tsm alternating (quick 12, thorough 72 datasets). " +
-			"Queries per dataset = APIs × authorizers × shard sets × conditions: authorizers nil, OpenAuthorizer and a fine-grained fake for EVERY subset of the 5 series (34); APIs Store.MeasurementNames, Store.TagKeys and Store.TagValues with shard id sets {A,B},{A},{B} (+{A,B,unknown id} thorough), SHOW MEASUREMENTS [WITH MEASUREMENT] [WHERE], SHOW TAG KEYS [FROM] [WHERE], SHOW TAG VALUES [FROM] WITH KEY =/!=/=~/IN [WHERE] through query.Executor → statement rewriter → StatementExecutor; condition = [_name filter: none, ='m0', !='m0', =~/m[01]/ (+ !~/0/ thorough)] AND [_tagKey clause: none, ='a', IN(a,b), !='a' (+ =~/a|b/, ='nokey' thorough)] AND [tag comparison: none or key∈{a,b} (+missing) × (= 'x', != 'x', = '', != '', =~ /x|z/, !~ /x/, =~ /^$/ (+ = 'y', != 'z', =~ /.*/, !~ /^$/ thorough))]. " +
+			"Queries per dataset = APIs × authorizers × shard sets × conditions: authorizers nil, OpenAuthorizer and a fine-grained fake for EVERY subset of the 5 series (34); APIs Store.MeasurementNames, Store.TagKeys and Store.TagValues with shard id sets {A,B},{A},{B} (+{A,B,unknown id} thorough), SHOW MEASUREMENTS [WITH MEASUREMENT] [WHERE], SHOW TAG KEYS [FROM] [WHERE], SHOW TAG VALUES [FROM] WITH KEY =/!=/=~/IN [WHERE] through query.Executor → statement rewriter → StatementExecutor; condition = [_name filter: none, ='m0', !='m0', =~/m[01]/ (+ !~/0/ thorough)] AND [_tagKey clause: none, ='a', IN(a,b), !='a' (+ =~/a|b/, ='nokey' thorough)] AND [tag comparison: none or key × (operator, literal), EVERY combination of: = 'x', != 'x', = '', != '' and (=~ | !~) × regex alphabet {/^x*$/, /.*/, /^$/ – regexes that MATCH THE EMPTY STRING, so that series lacking the key are selected by =~ and rejected by !~ – and /^x+$/, /x|z/, which do not}; quick: keys a, b × these 14 + the key no series has × (= 'x', != 'x', =~ /.*/, !~ /.*/) = 32 comparisons; thorough: keys a, b × (the 14 + = 'y', != 'z' + (=~ | !~) /y?/, which matches the empty string and the value y) + the key no series has × (the 4 + = '', != '', =~ /^x+$/, !~ /^x+$/) = 44 comparisons. In the pool m0{a=x} lacks b, m1{b=w} lacks a (and is the only series carrying b=w), m2{a=y} lacks b; each combination is run under every authorizer, i.e. every subset of visible series]. " +
 			"Many-values family (own datasets, visited first): pool m0{a=p}, m0{a=q}, m0{a=r,b=z}, m1{a=q}, m1{a=r}, m2{b=z} – three values of tag a on three different series of ONE measurement; datasets: all series in both groups (tsm), placement (B,A,AB,A,B,AB) (cache) (thorough + placement (A,B,B,AB,AB,A) tsm and all-in-both followed by delete all-time a=q); queries = measurement listings only: Store.MeasurementNames, SHOW MEASUREMENTS × authorizers nil, OpenAuthorizer and a fine-grained fake for EVERY subset of the 6 series (66) × _name filter none, ='m0' (+ =~/m[01]/ thorough) × tag comparison a =~ /p|q/, /q|r/, /p|r/, /[pqr]/, /q/, a = 'q', 'r', a != 'p', 'q', a !~ /p|q/, /[pqr]/, b =~ /z|w/, b != 'z' (thorough + a = 'p', '', a != 'r', '', a !~ /q|r/, /r/, a =~ /.*/, b = 'z', b !~ /z/): every combination of which matching values of a measurement are carried by hidden series only occurs. " +
 			"Oracle: reference over the model of live (per queried shard set) and visible series – see the file header. non-trivial = queries whose reference lists ≥1 name (distinct by construction).",
 		Assumptions: []string{
 			"a series is live in a shard set iff it still holds a point in one of those shards (the delete semantics themselves are C17's business)",
-			"tag comparisons in TagKeys/TagValues select SERIES with InfluxQL semantics (absent tag = empty string), as established by C15",
+			"tag comparisons in TagKeys/TagValues select SERIES with InfluxQL semantics (absent tag = empty string), as established by C15: a series lacking the key satisfies k = '', k =~ /re/ iff re matches the empty string, k != 'x', and k !~ /re/ iff re does NOT match the empty string; the reference is a brute force over the series list with exactly this rule",
 			"for measurement listings restricted by a tag comparison three readings of 'the measurement matches' are accepted (see file header); a result is only judged where all readings agree",
 			"a measurement group returned by Store.TagKeys with an empty key list is treated as not listed",
 			"errors returned for these valid requests are reported as violations (class 'error')",
 		},
-		QuickBudgetS: 60, ThoroughBudgetS: 1100,
+		QuickBudgetS: 100, ThoroughBudgetS: 1300,
 		Run: func(c *vlib.Ctx) {
 			usePool("")
 			qsClassic := queries(c.Thorough())
@@ -1242,6 +1265,14 @@ func TestCheck(t *testing.T) {
 						c.NontrivialN(1)
 					}
 					c.Outcome(fmt.Sprintf("%s/auth=%s/results=%d/empty-group=%v", q.API, q.authKind(), capN(v.nResult, 4), v.emptyGrp))
+					if q.Leaf != nil && q.Leaf.positive("") {
+						// the dimension "literal matches the empty string": count the queries and those in which a live visible
+						// series of a selected measurement LACKS the compared key (its value is "" for the comparison)
+						c.Extra("tag_comparison_literal_matches_empty/"+q.Leaf.Op, 1)
+						if lacksKey(q, md) {
+							c.Extra("tag_comparison_literal_matches_empty_and_visible_series_lacks_key/"+q.Leaf.Op, 1)
+						}
+					}
 					cs := Case{DS: ds, Q: q}
 					switch {
 					case v.panicked != "":
@@ -1309,6 +1340,17 @@ func TestCheck(t *testing.T) {
 			return bad, sb.String()
 		},
 	})
+}
+
+// lacksKey: does some live visible series of a measurement selected by the _name filter lack the compared tag key?
+func lacksKey(q Query, md model) bool {
+	lv, _ := q.seriesSets(md)
+	for _, s := range lv {
+		if _, has := pool[s].Tags[q.Leaf.Key]; !has && q.Name.match(pool[s].M) {
+			return true
+		}
+	}
+	return false
 }
 
 func capN(n, c int) int {
